@@ -76,17 +76,20 @@ func c20BuildProp(k *verifkit.Kit) func(c c20Build) error {
 const c20Sentinel = "VERIF-END-OF-NOTIFICATIONS"
 
 type c20Task struct {
-	FailNS   int64 `json:"fail_ns"`    // >0: Run returns an error at this instant (unless cancelled before)
-	NilNS    int64 `json:"nil_ns"`     // >0: Run returns nil at this instant
-	StopNS   int64 `json:"stop_ns"`    // time Run takes to return after observing cancellation
-	ReadyNS  int64 `json:"ready_ns"`   // <0: never ready
-	StopErr  bool  `json:"stop_error"` // returns an error (instead of nil) when cancelled
+	FailNS  int64 `json:"fail_ns"`    // >0: Run returns an error at this instant (unless cancelled before)
+	NilNS   int64 `json:"nil_ns"`     // >0: Run returns nil at this instant
+	StopNS  int64 `json:"stop_ns"`    // time Run takes to return after observing cancellation
+	ReadyNS int64 `json:"ready_ns"`   // <0: never ready
+	StopErr bool  `json:"stop_error"` // returns an error (instead of nil) when cancelled
 }
 
 type c20Serve struct {
-	Tasks  []c20Task `json:"tasks"`
-	Sig    string    `json:"signal"` // "" none, INT TERM HUP
-	SigNS  int64     `json:"signal_ns"`
+	Tasks []c20Task `json:"tasks"`
+	Sig   string    `json:"signal"` // "" none, INT TERM HUP
+	SigNS int64     `json:"signal_ns"`
+	// the service manager's end of the notification socket is gone (closed before the server starts): every
+	// notification fails; supervision must be unaffected (what is announced cannot be observed then)
+	NotifyGone bool `json:"notify_gone,omitempty"`
 }
 
 type c20Log struct {
@@ -97,13 +100,13 @@ type c20Log struct {
 }
 
 type scriptedTask struct {
-	id    int
-	spec  c20Task
+	id     int
+	spec   c20Task
 	readyC chan struct{}
-	t0    time.Time
-	mu    *sync.Mutex
-	log   *[]c20Log
-	term  func() bool
+	t0     time.Time
+	mu     *sync.Mutex
+	log    *[]c20Log
+	term   func() bool
 }
 
 func (s *scriptedTask) add(what string, term bool) {
@@ -179,6 +182,9 @@ func c20ServeProp(t *testing.T, k *verifkit.Kit) func(c c20Serve) error {
 			return fmt.Errorf("verif: cannot open notifier: %v", err)
 		}
 		defer n.Close()
+		if c.NotifyGone {
+			pc.Close()
+		}
 
 		// The notifications are read while the server runs: a datagram socket
 		// queues only a few messages (net.unix.max_dgram_qlen), and a server
@@ -406,7 +412,7 @@ func c20ServeProp(t *testing.T, k *verifkit.Kit) func(c c20Serve) error {
 		if readyIdx >= 0 && !allReady {
 			return verifkit.Violf("C20/ready-although-a-task-is-not", "READY announced although a task never reported ready\n%s", desc())
 		}
-		if readyIdx < 0 && allReady && latestReady < serveAt && (cause < 0 || latestReady < cause) {
+		if readyIdx < 0 && allReady && latestReady < serveAt && (cause < 0 || latestReady < cause) && !c.NotifyGone {
 			return verifkit.Violf("C20/ready-not-announced", "every task was ready at %v but READY was never announced\n%s", latestReady, desc())
 		}
 		return nil
@@ -455,6 +461,7 @@ func c20GenServe(t *rapid.T) c20Serve {
 	if c.Sig != "" {
 		c.SigNS = rapid.SampledFrom(times).Draw(t, "sigat")
 	}
+	c.NotifyGone = rapid.IntRange(0, 9).Draw(t, "notifygone") == 0
 	return c
 }
 
